@@ -28,7 +28,7 @@ theorem frames_are_the_bytes (cfg : Cfg) (es : List Ev) (c : Conn) (hc : (run cf
   (run_inv cfg es).1.bytes c hc
 
 /-! non-vacuity (kernel-evaluated): two PUBLISH frames split at an arbitrary byte, one early read() -/
-def exCfg : Cfg := ⟨[109], [115], id⟩
+def exCfg : Cfg := { ident := [109], secret := [115], H := id }
 def exInfo : Bytes := [0,0,0,12,1,2,104,112,9,8,7,6]
 def exPub (x : UInt8) : Bytes := [0,0,0,10,3,1,97,1,99,x]
 example : (run exCfg [.read, .accept, .data (exInfo ++ (exPub 1).take 3), .data ((exPub 1).drop 3 ++ exPub 2), .read]).1.handedLog =
